@@ -45,22 +45,23 @@ Theorem C20_wfn_protocol_idempotent : forall p w w',
   exists w'', wfn_pre (Some p) (Some w') = Ok (Some w'') /\ forall k, dget k w'' = dget k w'.
 Proof. exact wfn_pre_idempotent. Qed.
 
-(** The pointer-following loop raises no KeyError when every selected pointer names a key that is
-    present after the restricted filter ... *)
-Theorem C20_wfn_no_keyerror_when_targets_present : forall l w,
-  (forall rk, In rk l -> forall r, dget "restricted" w = Some r -> ptr_ok (after_restricted r w) rk) ->
-  wfn_filter (KeepList l) w <> Err PyKeyError.
-Proof. exact wfn_filter_no_keyerror. Qed.
+(** The `wavefunction` field fails closed: whatever the protocol filter, or the filter followed by the
+    WavefunctionProperties validation, refuses, it refuses with a validation error (never a KeyError:
+    this is the repaired defect C20-dangling-pointer-keyerror); and the pointer-following loop succeeds
+    exactly when every selected pointer is absent, None, or names a key present after the restricted filter. *)
+Theorem C20_wfn_fails_closed :
+  (forall p v k, wfn_pre p v = Err k -> k = Validation)
+  /\ (forall p v k, wfn_stage p v = Err k -> k = Validation)
+  /\ (forall l w r, dget "restricted" w = Some r -> r <> WNone ->
+        ((exists w', wfn_filter (KeepList l) w = Ok (Some w')) <-> forall rk, In rk l -> ptr_ok (after_restricted r w) rk)).
+Proof. split; [exact wfn_pre_err|]. split; [exact wfn_stage_err|exact wfn_filter_succeeds_iff]. Qed.
 
-(** ... but "the protocol filter fails only with a validation error" is false: a restricted wavefunction
-    whose alpha pointer names a beta array escapes with a bare KeyError (known finding
-    C20-dangling-pointer-keyerror; the witness is replayed on the implementation by the harness corpus). *)
+(** the input that used to escape with a bare KeyError: an alpha pointer naming a beta array of a restricted wavefunction *)
 Definition dangling_witness : wdict :=
   [("basis", WBasis 2); ("restricted", WBool true);
    ("scf_orbitals_b", WArr {| dat := [1; 2; 3; 4]; shp := [4] |}); ("orbitals_a", WStr "scf_orbitals_b")].
-Theorem C20_wfn_fails_closed_refuted :
-  exists p w, wfn_pre (Some p) (Some w) = Err PyKeyError.
-Proof. exists "orbitals_and_eigenvalues", dangling_witness. vm_compute. reflexivity. Qed.
+Example C20_ex_dangling : wfn_pre (Some "orbitals_and_eigenvalues") (Some dangling_witness) = Err Validation.
+Proof. vm_compute. reflexivity. Qed.
 
 (** stdout and native_files: what each policy returns, and applying the policy twice is applying it once. *)
 Theorem C20_stdout_native_protocols :
@@ -141,7 +142,8 @@ Theorem C20_property_arrays :
   /\ (forall name a, In name ["return_gradient"; "scf_total_gradient"; "return_hessian"; "scf_total_hessian"] ->
      prop_field None (name, a) = Err Validation)
   /\ (forall name natom a,
-     In name ["scf_dipole_moment"; "mp2_dipole_moment"; "ccsd_dipole_moment"; "ccsd_prt_pr_dipole_moment"] ->
+     In name ["scf_dipole_moment"; "mp2_dipole_moment"; "ccsd_dipole_moment"; "ccsd_prt_pr_dipole_moment";
+              "ccsdt_dipole_moment"; "ccsdtq_dipole_moment"] ->
      prop_field natom (name, a) = if 3 =? zlen (dat a) then Ok (name, {| dat := dat a; shp := [3] |}) else Err Validation)
   /\ (forall natom a, prop_field natom ("scf_quadrupole_moment", a) =
      if 9 =? zlen (dat a) then Ok ("scf_quadrupole_moment", {| dat := dat a; shp := [3; 3] |}) else Err Validation).
@@ -150,19 +152,23 @@ Proof.
   split; [exact prop_dipole|exact prop_quadrupole].
 Qed.
 
-(** "Every array that declares a shape is reshaped to it or rejected" is false of the code: the CCSDT /
-    CCSDTQ dipoles (declared shape [3]) and the Coulomb / exchange / localized wavefunction arrays
-    (declared nao x nao etc.) are covered by no validator and are accepted as they come (known finding
-    C20-unvalidated-declared-shapes; replayed on the implementation by the harness corpus). *)
+(** Every array field that declares a shape (wavefunction and properties) is covered by a reshape rule
+    compatible with the declaration (nao = nbf, nmo = the free dimension, constants equal) — finite check
+    over the regenerated field tables; the only exceptions are localized_fock_a/_b (next theorem). *)
+Theorem C20_declared_shapes_enforced :
+  forallb wfn_decl_ok wfn_fields = true /\ forallb prop_decl_ok prop_fields = true.
+Proof. exact declared_shapes_enforced. Qed.
+
+(** "Every array that declares a shape is reshaped to it or rejected" is still false for localized_fock_a/_b
+    (declared nmo x nmo; nmo is unknown to the model, so no validator covers them): accepted as they
+    come, any size (known finding C20-unvalidated-declared-shapes; replayed by the harness corpus). *)
 Theorem C20_declared_shapes_enforced_refuted :
-  (forall name natom a, In name ["ccsdt_dipole_moment"; "ccsdtq_dipole_moment"] -> prop_field natom (name, a) = Ok (name, a))
-  /\ (exists w, In ("scf_coulomb_a", FArr None (Some [DNao; DNao])) wfn_fields
-                /\ dget "scf_coulomb_a" w = Some (WArr {| dat := [1; 2; 3]; shp := [3] |})
-                /\ dget "basis" w = Some (WBasis 2) /\ wfn_validate w = Ok w).
+  exists w, In ("localized_fock_a", FArr None (Some [DNmo; DNmo])) wfn_fields
+            /\ dget "localized_fock_a" w = Some (WArr {| dat := [1; 2; 3]; shp := [3] |})
+            /\ wfn_validate w = Ok w.
 Proof.
-  split; [exact prop_unvalidated_dipoles|].
-  exists [("basis", WBasis 2); ("restricted", WBool false); ("scf_coulomb_a", WArr {| dat := [1; 2; 3]; shp := [3] |})].
-  repeat split; vm_compute; auto 30.
+  exists [("basis", WBasis 2); ("restricted", WBool false); ("localized_fock_a", WArr {| dat := [1; 2; 3]; shp := [3] |})].
+  repeat split; vm_compute; auto 40.
 Qed.
 
 (** Re-validating an accepted WavefunctionProperties dictionary (the reshape validators and the pointer
@@ -256,8 +262,7 @@ Print Assumptions C20_keep_lists_are_documented.
 Print Assumptions C20_wfn_kept_exactly.
 Print Assumptions C20_wfn_dropped_only_by_none.
 Print Assumptions C20_wfn_protocol_idempotent.
-Print Assumptions C20_wfn_no_keyerror_when_targets_present.
-Print Assumptions C20_wfn_fails_closed_refuted.
+Print Assumptions C20_wfn_fails_closed.
 Print Assumptions C20_stdout_native_protocols.
 Print Assumptions C20_trajectory_spec.
 Print Assumptions C20_trajectory_idempotent_total.
@@ -265,6 +270,7 @@ Print Assumptions C20_shapes_accepted_iff_size_fits.
 Print Assumptions C20_shapes_flat_shaped_idempotent.
 Print Assumptions C20_return_result_by_driver.
 Print Assumptions C20_property_arrays.
+Print Assumptions C20_declared_shapes_enforced.
 Print Assumptions C20_declared_shapes_enforced_refuted.
 Print Assumptions C20_wfn_validation_idempotent.
 Print Assumptions C20_nbf_spec.
